@@ -46,7 +46,7 @@ theorem wsum_fAct_finish {cfg : Cfg} {s : State} (h : SInv cfg s) {i : Nat} {p :
   · rw [e]
     have hnext := h.next_notStarted hi hpd hn
     have h1 := wsum_set0 fAct s.tasks i p (.done true) hi
-    have h2 := wsum_set0 fAct (s.tasks.set i (.done true)) (i + 1) .notStarted .cbAcq
+    have h2 := wsum_set0 fAct (s.tasks.set i (.done true)) (i + 1) .notStarted .tAcq
       (by simp only [List.getElem?_set]; simp; exact hnext)
     simp [fAct, hp] at h1 h2 ⊢
     omega
@@ -117,8 +117,8 @@ theorem PInv_step {cfg : Cfg} (wf : WF cfg) {s s' : State} {l : Label} (hs : SIn
       exact ⟨h.pool, h.exited_sd, by simp [hsd], by simp [he], by simp⟩
   | take j q hq hidle =>
       have hj : j ∈ s.queue := by simp [hq]
-      have h1 := wsum_set0 fAct s.tasks _ .notStarted .cbAcq (hs.start_notStarted wf hj)
-      simp only [fAct, act_notStarted, act_cbAcq, if_true, Bool.false_eq_true, if_false] at h1
+      have h1 := wsum_set0 fAct s.tasks _ .notStarted .tAcq (hs.start_notStarted wf hj)
+      simp only [fAct, act_notStarted, act_tAcq, if_true, Bool.false_eq_true, if_false] at h1
       refine ⟨?_, h.exited_sd, h.sd_main, h.fin_exit, h.sub_lt⟩
       have := h.pool
       show s.idle - 1 + s.exited + wsum fAct 0 (s.tasks.set _ _) = cfg.workers
@@ -134,8 +134,8 @@ theorem PInv_step {cfg : Cfg} (wf : WF cfg) {s s' : State} {l : Label} (hs : SIn
         omega
   | cbAcq i hi hl => exact PInv_set h hi rfl rfl rfl rfl rfl rfl rfl
   | cbFail i hi hf =>
-      exact PInv_finish (s0 := { s with log := s.log ++ [i], cbLock := false }) h
-        (SInv_congr hs rfl rfl rfl rfl rfl) false hi rfl rfl rfl rfl rfl rfl
+      exact PInv_finish (s0 := { s with log := s.log ++ [i], cbLock := false, tLocks := s.tLocks.set (cfg.obj i) false }) h
+        (SInv_congr hs rfl rfl (by simp) rfl rfl) false hi rfl rfl rfl rfl rfl rfl
   | cbOk i hi hf => exact PInv_set h hi rfl rfl rfl rfl rfl rfl rfl
   | tAcq i hi hl => exact PInv_set h hi rfl rfl rfl rfl rfl rfl rfl
   | bTry i p hi hp =>
